@@ -75,6 +75,7 @@ POSTPROC = dict(
     params={"raw_samples": "list[obj[Sample]]"},
     fields=PP_FIELDS,
     ghost_state={"$merged": "any", "$msample": "int", "$n_lat": "int", "$n_proc": "int"},
+    locals={"sample": "obj[Sample]"},  # the loop variable of the first loop stays bound afterwards (Python semantics); the meta-data ghost of self.merge names it
     requires=[f"{F_} >= 1", "$n_lat == 0 and $n_proc == 0"],
     lemmas={
         "CNTstep": dict(vars={"i": "int", "f": "int"}, stmt="implies(i >= 0 and f >= 1, (i + 1 + f - 1) // f == (i + f - 1) // f + (1 if i % f == 0 else 0) and (0 + f - 1) // f == 0)"),
@@ -86,7 +87,7 @@ POSTPROC = dict(
         PUT: dict(event="put", event_kwargs=["name", "value", "meta_data"],
                   ghost_update=[("$n_lat", "$n_lat + (1 if kw_name == 'latency' else 0)"), ("$n_proc", "$n_proc + (1 if kw_name == 'processing_time' else 0)")]),
         "sample.dependent_timings": dict(attr=True, returns="list[obj[Sample]]"),
-        "self.throughput_calculator.calculate": dict(returns="dict[obj[Task],list[tuple[real,real,any,real,any]]]"),
+        "self.throughput_calculator.calculate": dict(returns="dict[obj[Task],list[tuple[real,real,any,real,any]]]", ensures=["not has(result, None)"]),  # keyed by the samples' tasks
         "self.metrics_store.flush": dict(event="flush", event_kwargs=["refresh"]),
     },
     at_call={
@@ -117,8 +118,36 @@ POSTPROC = dict(
     cover=["return"],
 )
 
-CONTRACTS = [POSTPROC, SEND_SAMPLES, W_DRIVE, MOVE_NEXT, MAY_COMPLETE, JOINPOINT, UPDATE, POST_PROCESS]
-ASSUMPTIONS = ["FIFO delivery (UpdateSamples before JoinPointReached of the same worker); pickle/zlib round trip of externalised metrics is the identity", "Sampler.samples drains the whole queue (queue.Queue semantics)",
+# ------------------------------------------------------------------------------------------------ Sampler.samples: the drain hands over the WHOLE queue, in order
+# queue.Queue (assumed): get_nowait returns the oldest queued item, or raises queue.Empty exactly when nothing is queued. Ghost: $Q = queue content at entry, $taken = items taken so far.
+SAMPLER_SAMPLES = dict(
+    target="esrally/driver/driver.py::Sampler.samples",
+    prop="C07",
+    self_type="obj[Sampler]",
+    fields={"Sampler.q": "any", "Sampler.start_timestamp": "real", "Sampler.logger": "any"},
+    ghost={"Q": "list[any]"},
+    ghost_state={"$taken": "int"},
+    requires=["$taken == 0"],
+    locals={"samples": "list[any]"},
+    externals={
+        "self.q.get_nowait": dict(outcomes=[
+            dict(returns="any", ensures=["$taken < len(Q) and result == Q[$taken]"], ghost_update=("$taken", "$taken + 1")),
+            dict(raises="queue.Empty", ensures=["$taken == len(Q)"]),
+        ]),
+    },
+    loops={0: dict(modifies_objs=["samples"], inv=["0 <= $taken and $taken <= len(Q) and len(samples) == $taken and ref(samples) != ref(Q)",
+                                                 "forall(lambda k: implies(0 <= k and k < $taken, samples[k] == Q[k]))"])},
+    returns="list[any]",
+    ensures=[
+        # nothing stays behind (a drain that stops early loses the rest when the worker drops or replaces the sampler), nothing is duplicated or reordered
+        "$taken == len(Q)",
+        "len(result) == len(Q) and forall(lambda k: implies(0 <= k and k < len(Q), result[k] == Q[k]))",
+    ],
+    cover=["return"],
+)
+
+CONTRACTS = [SAMPLER_SAMPLES, POSTPROC, SEND_SAMPLES, W_DRIVE, MOVE_NEXT, MAY_COMPLETE, JOINPOINT, UPDATE, POST_PROCESS]
+ASSUMPTIONS = ["FIFO delivery (UpdateSamples before JoinPointReached of the same worker); pickle/zlib round trip of externalised metrics is the identity", "queue.Queue.get_nowait returns the oldest item or raises queue.Empty exactly when the queue is empty (Sampler.samples itself is under contract)",
                "the executor thread only touches sampler, complete, cancel"]
 NOT_DECIDED = ["interleaving of periodic ticks, shipments and hand-overs (outside this family)", "the service_time record count of SamplePostprocessor (checked at its call site only), throughput records, MetricsStore._put_metric / to_externalizable / bulk_add (not under contract)"]
 TRUSTED = []
